@@ -1,7 +1,7 @@
 (** C03 — property theorems: statements (as printed by Coq) closed by [exact]. *)
 From Coq Require Import ZArith QArith List.
 From KV Require Import Base.Outcome Base.Num C19.Model C19.ProofsEasing C06.Model C06.Dur C06.Proofs C06.Proofs2
-  C03.Model C03.ProofsInner C03.ProofsLife.
+  C03.Model C03.ProofsInner C03.ProofsLife C03.ModelStream C03.ProofsStream.
 Import ListNotations.
 Local Open Scope Q_scope.
 
@@ -188,3 +188,361 @@ Theorem fade_in_monotone_to_unity :
        v0 <= identityQ ->
        amp (the_law powf v0 identityQ e D t1) <= amp (the_law powf v0 identityQ e D t2) <= 1.
 Proof. exact @fade_in_gain_monotone. Qed.
+
+(** *** streaming sounds, sounds that end at construction, main-track pick-up order *)
+
+Theorem stream_error_stops_in_any_state :
+  forall (powf : Q -> Q -> Q) (amp : Q -> Q) (s : stream Q Q) (len : nat) (dt : Q) (i : info Q),
+  st_err s = true ->
+  exists s' : stream Q Q,
+    zprocess powf amp s len dt i = Ok (s', repeat 0 len) /\
+    ps (st_psm s') = Stopped /\
+    st_mirror s' = 6%Z /\
+    stream_finished Q s' = true /\ st_ring s' = st_ring s /\ st_position s' = st_position s.
+Proof. exact @stream_error_stops. Qed.
+
+Theorem stream_state_step_is_starvation_independent :
+  forall (powf : Q -> Q -> Q) (amp : Q -> Q) (s : stream Q Q) (len : nat) (dt : Q)
+    (i : info Q) (m : psm Q Q) (changed : bool) (st : stime Q) (never : bool),
+  st_err s = false ->
+  pupd powf (st_psm s) (dtl dt len) i = Ok (m, changed) ->
+  stime_update (st_start s) (dtl dt len) i = Ok (st, never) ->
+  exists (s' : stream Q Q) (outs : list Q),
+    zprocess powf amp s len dt i = Ok (s', outs) /\
+    length outs = len /\
+    st_start s' = st /\
+    st_err s' = false /\
+    st_end s' = st_end s /\
+    (st_psm s' = (if never then psm_mark_stopped Q m else m) \/
+     st_end s = true /\ st_ring s' = [] /\ st_psm s' = psm_mark_stopped Q m).
+Proof. exact @stream_psm_step. Qed.
+
+Theorem stream_follows_state_manager :
+  forall (powf : Q -> Q -> Q) (amp : Q -> Q) (l : list sstep) (s : stream Q Q),
+  st_err s = false ->
+  st_end s = false ->
+  st_start s = Immediate ->
+  Forall quiet l ->
+  match prun powf (st_psm s) (upds l) with
+  | Ok m' =>
+      exists s' : stream Q Q,
+        zrun powf amp s l = Ok s' /\
+        st_psm s' = m' /\ st_err s' = false /\ st_end s' = false /\ st_start s' = Immediate
+  | Panic k => zrun powf amp s l = Panic k
+  | Hang => zrun powf amp s l = Hang
+  end.
+Proof. exact @stream_follows_psm. Qed.
+
+Theorem stream_lifecycle_pause :
+  forall (powf : Q -> Q -> Q) (amp : Q -> Q) (s : stream Q Q) (tw : tween Q) (l : list sstep),
+  live s ->
+  Forall quiet l ->
+  not_delayed (tw_start tw) ->
+  tw_dur tw <> 0%Z ->
+  let D := ns_to_secs_Q (tw_dur tw) in
+  let s1 := zon_start s (cmd_pause tw) in
+  ps (st_psm s1) = Pausing /\
+  st_mirror s1 = 1%Z /\
+  (exists s' : stream Q Q,
+     zrun powf amp s1 l = Ok s' /\
+     (if completes (tw_start tw) D 0 (upds l)
+      then ps (st_psm s') = Paused /\ st_mirror s' = 2%Z /\ p_raw (fade (st_psm s')) = silenceQ
+      else
+       ps (st_psm s') = Pausing /\
+       st_mirror s' = 1%Z /\
+       (upds l <> [] ->
+        p_raw (fade (st_psm s')) =
+        the_law powf (p_raw (fade (st_psm s))) silenceQ (tw_easing tw) D
+          (elapsed (tw_start tw) 0 (upds l))))).
+Proof. exact @stream_pause_lifecycle. Qed.
+
+Theorem stream_lifecycle_stop :
+  forall (powf : Q -> Q -> Q) (amp : Q -> Q) (s : stream Q Q) (tw : tween Q) (l : list sstep),
+  live s ->
+  Forall quiet l ->
+  not_delayed (tw_start tw) ->
+  tw_dur tw <> 0%Z ->
+  let D := ns_to_secs_Q (tw_dur tw) in
+  let s1 := zon_start s (cmd_stop tw) in
+  ps (st_psm s1) = Stopping /\
+  st_mirror s1 = 5%Z /\
+  (exists s' : stream Q Q,
+     zrun powf amp s1 l = Ok s' /\
+     (if completes (tw_start tw) D 0 (upds l)
+      then ps (st_psm s') = Stopped /\ st_mirror s' = 6%Z /\ p_raw (fade (st_psm s')) = silenceQ
+      else
+       ps (st_psm s') = Stopping /\
+       st_mirror s' = 5%Z /\
+       (upds l <> [] ->
+        p_raw (fade (st_psm s')) =
+        the_law powf (p_raw (fade (st_psm s))) silenceQ (tw_easing tw) D
+          (elapsed (tw_start tw) 0 (upds l))))).
+Proof. exact @stream_stop_lifecycle. Qed.
+
+Theorem stream_lifecycle_resume :
+  forall (powf : Q -> Q -> Q) (amp : Q -> Q) (s : stream Q Q) (tw : tween Q) (l : list sstep),
+  live s ->
+  Forall quiet l ->
+  not_delayed (tw_start tw) ->
+  tw_dur tw <> 0%Z ->
+  let D := ns_to_secs_Q (tw_dur tw) in
+  let s1 := zon_start s (cmd_resume Immediate tw) in
+  ps (st_psm s1) = Resuming /\
+  st_mirror s1 = 4%Z /\
+  (exists s' : stream Q Q,
+     zrun powf amp s1 l = Ok s' /\
+     (if completes (tw_start tw) D 0 (upds l)
+      then ps (st_psm s') = Playing /\ st_mirror s' = 0%Z /\ p_raw (fade (st_psm s')) = identityQ
+      else
+       ps (st_psm s') = Resuming /\
+       st_mirror s' = 4%Z /\
+       (upds l <> [] ->
+        p_raw (fade (st_psm s')) =
+        the_law powf (p_raw (fade (st_psm s))) identityQ (tw_easing tw) D
+          (elapsed (tw_start tw) 0 (upds l))))).
+Proof. exact @stream_resume_lifecycle. Qed.
+
+Theorem stream_lifecycle_resume_at :
+  forall (powf : Q -> Q -> Q) (amp : Q -> Q) (s : stream Q Q) (st : stime Q)
+    (tw : tween Q) (len : nat) (dt : Q) (i : info Q) (f : param Q Q) (fin : bool) 
+    (st' : stime Q) (never : bool),
+  zmirror_ok s ->
+  st_err s = false ->
+  st_start s = Immediate ->
+  ps (st_psm s) = WaitingToResume st tw ->
+  param_update powf Q lerp (fade (st_psm s)) (dtl dt len) i = Ok (f, fin) ->
+  stime_update st (dtl dt len) i = Ok (st', never) ->
+  exists (s' : stream Q Q) (outs : list Q),
+    zprocess powf amp s len dt i = Ok (s', outs) /\
+    zmirror_ok s' /\
+    (if never
+     then ps (st_psm s') = Stopped /\ outs = repeat 0 len /\ st_ring s' = st_ring s
+     else
+      if is_immediate st'
+      then
+       st_psm s' = {| ps := Resuming; fade := param_set f (Fixed identityQ) tw |} \/
+       st_end s = true /\ st_ring s' = [] /\ ps (st_psm s') = Stopped
+      else
+       st_psm s' = {| ps := WaitingToResume st' tw; fade := f |} /\
+       outs = repeat 0 len /\ st_ring s' = st_ring s).
+Proof. exact @stream_resume_at_step. Qed.
+
+Theorem stream_silent_and_frozen :
+  forall (powf : Q -> Q -> Q) (amp : Q -> Q) (s s' : stream Q Q) (len : nat)
+    (dt : Q) (i : info Q) (outs : list Q),
+  zprocess powf amp s len dt i = Ok (s', outs) ->
+  ps (st_psm s') = Paused \/
+  (exists (st : stime Q) (tw : tween Q), ps (st_psm s') = WaitingToResume st tw) \/
+  ps (st_psm s) = Stopped \/ is_immediate (st_start s') = false \/ zstarved s = true \/ st_err s = true ->
+  outs = repeat 0 len /\ st_ring s' = st_ring s /\ st_position s' = st_position s.
+Proof. exact @stream_silent_frozen. Qed.
+
+Theorem stream_stopped_ignores_commands :
+  forall (s : stream Q Q) (c : commands Q),
+  ps (st_psm s) = Stopped ->
+  st_psm (zon_start s c) = st_psm s /\
+  st_ring (zon_start s c) = st_ring s /\ st_start (zon_start s c) = st_start s.
+Proof. exact @zon_start_stopped. Qed.
+
+Theorem stream_stopped_is_silent_and_frozen :
+  forall (powf : Q -> Q -> Q) (amp : Q -> Q) (s s' : stream Q Q) (len : nat)
+    (dt : Q) (i : info Q) (outs : list Q),
+  ps (st_psm s) = Stopped ->
+  zprocess powf amp s len dt i = Ok (s', outs) ->
+  ps (st_psm s') = Stopped /\
+  outs = repeat 0 len /\ st_ring s' = st_ring s /\ st_position s' = st_position s.
+Proof. exact @zprocess_stopped. Qed.
+
+Theorem stream_stopped_absorbing :
+  forall (powf : Q -> Q -> Q) (amp : Q -> Q) (l : list sstep) (s s' : stream Q Q),
+  ps (st_psm s) = Stopped -> zrun powf amp s l = Ok s' -> ps (st_psm s') = Stopped.
+Proof. exact @stream_stopped_forever. Qed.
+
+Theorem stream_handle_mirror_new :
+  forall (start : Z) (st : stime Q) (fi : option (tween Q)), zmirror_ok (znew start st fi).
+Proof. exact @zmirror_new. Qed.
+
+Theorem stream_handle_mirror_commands :
+  forall (s : stream Q Q) (c : commands Q), zmirror_ok s -> zmirror_ok (zon_start s c).
+Proof. exact @zmirror_on_start. Qed.
+
+Theorem stream_handle_mirror_process :
+  forall (powf : Q -> Q -> Q) (amp : Q -> Q) (s s' : stream Q Q) (len : nat)
+    (dt : Q) (i : info Q) (outs : list Q),
+  zmirror_ok s -> zprocess powf amp s len dt i = Ok (s', outs) -> zmirror_ok s'.
+Proof. exact @zmirror_process. Qed.
+
+Theorem stream_handle_mirror_decoder :
+  forall (s : stream Q Q) (e : env_step), zmirror_ok s -> zmirror_ok (zenv s e).
+Proof. exact @zmirror_env. Qed.
+
+Theorem finite_stream_reaches_stopped_thm :
+  forall (powf : Q -> Q -> Q) (amp : Q -> Q) (lens : list nat) (s : stream Q Q) (dt : Q) (i : info Q),
+  zsteady s ->
+  st_end s = true ->
+  st_ring s <> [] ->
+  exists s' : stream Q Q,
+    zrun powf amp s (procs lens dt i) = Ok s' /\
+    (ps (st_psm s') = Stopped <-> (length (st_ring s) <= total lens)%nat) /\
+    (ps (st_psm s') = Stopped \/ ps (st_psm s') = Playing) /\
+    st_ring s' = skipn (total lens) (st_ring s).
+Proof. exact @finite_stream_reaches_stopped. Qed.
+
+Theorem stopped_at_construction_is_published :
+  forall (x0 : inner) (st : stime Q) (fi : option (tween Q)),
+  in_playing x0 = false ->
+  (in_tue x0 <= 3)%Z ->
+  let s := qnew_from x0 st fi in
+  ps (s_psm s) = Stopped /\ s_mirror s = 6%Z /\ mirror_ok s /\ sound_finished Q s = true.
+Proof. exact @stopped_at_construction. Qed.
+
+Theorem reverse_with_nothing_to_play_is_stopped :
+  forall (n : Z) (lp : bool) (st : stime Q) (fi : option (tween Q)),
+  let s := qnew_from (inner_ended n lp) st fi in
+  ps (s_psm s) = Stopped /\ s_mirror s = 6%Z /\ mirror_ok s /\ sound_finished Q s = true.
+Proof. exact @reverse_with_nothing_to_play. Qed.
+
+Theorem handle_mirror_new_from_any_core :
+  forall (x0 : inner) (st : stime Q) (fi : option (tween Q)), mirror_ok (qnew_from x0 st fi).
+Proof. exact @mirror_new_from. Qed.
+
+Theorem constructor_generalises_sound_new :
+  forall (n start : Z) (lp : bool) (st : stime Q) (fi : option (tween Q)),
+  sound_new Q silenceQ identityQ n start lp st fi = qnew_from (x_init n start lp) st fi.
+Proof. exact @sound_new_is_from. Qed.
+
+Theorem main_track_picks_up_before_polling :
+  forall (S C : Type) (on_start : S -> C -> S) (finished : S -> bool) (none : C)
+    (t : mtrack S C) (s : S) (c : C),
+  In (s, c) (mt_queue t) ->
+  In (on_start s c, none) (mt_arena (main_on_start S C on_start finished none t)).
+Proof. exact @main_picks_up_then_polls. Qed.
+
+Theorem main_track_arena_after_start :
+  forall (S C : Type) (on_start : S -> C -> S) (finished : S -> bool) (none : C)
+    (t : mtrack S C) (e : S * C),
+  In e (mt_arena (main_on_start S C on_start finished none t)) ->
+  exists (s : S) (c : C),
+    e = (on_start s c, none) /\ (In (s, c) (mt_arena t) /\ finished s = false \/ In (s, c) (mt_queue t)).
+Proof. exact @main_arena_origin. Qed.
+
+Theorem main_track_unloads_finished :
+  forall (S C : Type) (on_start : S -> C -> S) (finished : S -> bool) (none : C) (t : mtrack S C),
+  mt_num_sounds S C (main_on_start S C on_start finished none t) =
+  (length (filter (fun e : S * C => negb (finished (fst e))) (mt_arena t)) + length (mt_queue t))%nat.
+Proof. exact @main_unloads_finished. Qed.
+
+Theorem command_before_first_callback_pause_static :
+  forall (powf : Q -> Q -> Q) (amp : Q -> Q) (t : mtrack (sound Q Q) (commands Q))
+    (s : sound Q Q) (tw : tween Q) (len : nat) (dt : Q) (i : info Q),
+  ps (s_psm s) <> Stopped ->
+  s_start s = Immediate ->
+  instant tw ->
+  0 <= dt ->
+  let s1 := son_start s (cmd_pause tw) in
+  In (s1, no_cmd) (mt_arena (qmain (mt_play (sound Q Q) (commands Q) t s (cmd_pause tw)))) /\
+  ps (s_psm s1) = Pausing /\
+  s_mirror s1 = 1%Z /\
+  (exists s2 : sound Q Q,
+     sprocess powf amp s1 len dt i = Ok (s2, repeat 0 len) /\
+     ps (s_psm s2) = Paused /\ s_mirror s2 = 2%Z /\ s_inner s2 = s_inner s).
+Proof. exact @static_first_callback_pause. Qed.
+
+Theorem command_before_first_callback_stop_static :
+  forall (powf : Q -> Q -> Q) (amp : Q -> Q) (t : mtrack (sound Q Q) (commands Q))
+    (s : sound Q Q) (tw : tween Q) (len : nat) (dt : Q) (i : info Q),
+  ps (s_psm s) <> Stopped ->
+  s_start s = Immediate ->
+  instant tw ->
+  0 <= dt ->
+  let s1 := son_start s (cmd_stop tw) in
+  In (s1, no_cmd) (mt_arena (qmain (mt_play (sound Q Q) (commands Q) t s (cmd_stop tw)))) /\
+  ps (s_psm s1) = Stopping /\
+  s_mirror s1 = 5%Z /\
+  (exists s2 : sound Q Q,
+     sprocess powf amp s1 len dt i = Ok (s2, repeat 0 len) /\
+     ps (s_psm s2) = Stopped /\ s_mirror s2 = 6%Z /\ sound_finished Q s2 = true).
+Proof. exact @static_first_callback_stop. Qed.
+
+Theorem command_before_first_callback_pause_stream :
+  forall (powf : Q -> Q -> Q) (amp : Q -> Q) (t : mtrack (stream Q Q) (commands Q))
+    (s : stream Q Q) (tw : tween Q) (len : nat) (dt : Q) (i : info Q),
+  ps (st_psm s) <> Stopped ->
+  st_start s = Immediate ->
+  st_err s = false ->
+  instant tw ->
+  0 <= dt ->
+  let s1 := zon_start s (cmd_pause tw) in
+  In (s1, no_cmd) (mt_arena (zmain (mt_play (stream Q Q) (commands Q) t s (cmd_pause tw)))) /\
+  ps (st_psm s1) = Pausing /\
+  st_mirror s1 = 1%Z /\
+  (exists s2 : stream Q Q,
+     zprocess powf amp s1 len dt i = Ok (s2, repeat 0 len) /\
+     ps (st_psm s2) = Paused /\ st_mirror s2 = 2%Z /\ st_ring s2 = st_ring s).
+Proof. exact @stream_first_callback_pause. Qed.
+
+Theorem command_before_first_callback_stop_stream :
+  forall (powf : Q -> Q -> Q) (amp : Q -> Q) (t : mtrack (stream Q Q) (commands Q))
+    (s : stream Q Q) (tw : tween Q) (len : nat) (dt : Q) (i : info Q),
+  ps (st_psm s) <> Stopped ->
+  st_start s = Immediate ->
+  st_err s = false ->
+  instant tw ->
+  0 <= dt ->
+  let s1 := zon_start s (cmd_stop tw) in
+  In (s1, no_cmd) (mt_arena (zmain (mt_play (stream Q Q) (commands Q) t s (cmd_stop tw)))) /\
+  ps (st_psm s1) = Stopping /\
+  st_mirror s1 = 5%Z /\
+  (exists s2 : stream Q Q,
+     zprocess powf amp s1 len dt i = Ok (s2, repeat 0 len) /\
+     ps (st_psm s2) = Stopped /\ st_mirror s2 = 6%Z /\ stream_finished Q s2 = true).
+Proof. exact @stream_first_callback_stop. Qed.
+
+Theorem starved_return_before_updates_refuted :
+  ps (st_psm w_starved) = Pausing /\
+  zstarved w_starved = true /\
+  st_err w_starved = false /\
+  (forall (n len : nat) (dt : Q) (i : info Q),
+   exists s' : stream Q Q,
+     iter_process (starved_first len dt i) n w_starved = Ok s' /\
+     ps (st_psm s') = Pausing /\ st_mirror s' = 1%Z) /\
+  (exists s' : stream Q Q,
+     zrun powf0 amp_lin w_starved [SProc 1 1 info0; SProc 1 1 info0] = Ok s' /\
+     ps (st_psm s') = Paused /\ st_mirror s' = 2%Z).
+Proof. exact @starved_return_before_updates_refuted_w. Qed.
+
+Theorem error_check_after_early_returns_refuted :
+  st_err w_paused_err = true /\
+  zmirror_ok w_paused_err /\
+  (forall (n len : nat) (dt : Q) (i : info Q),
+   exists s' : stream Q Q,
+     iter_process (error_late len dt i) n w_paused_err = Ok s' /\
+     ps (st_psm s') = Paused /\ st_mirror s' = 2%Z /\ stream_finished Q s' = false) /\
+  (forall (len : nat) (dt : Q) (i : info Q),
+   exists s' : stream Q Q,
+     zprocess powf0 amp_lin w_paused_err len dt i = Ok (s', repeat 0 len) /\
+     ps (st_psm s') = Stopped /\ st_mirror s' = 6%Z).
+Proof. exact @error_check_after_returns_refuted_w. Qed.
+
+Theorem on_start_before_pickup_refuted :
+  (mt_arena (qmain_poll_first w_track) = [(w_sound, cmd_pause (tw_of 0))] /\
+   (exists s' : sound Q Q,
+      sprocess powf0 amp_lin w_sound 2 1 info0 = Ok (s', [1; 1]) /\
+      ps (s_psm s') = Playing /\ s_mirror s' = 0%Z)) /\
+  (exists s1 : sound Q Q,
+     mt_arena (qmain w_track) = [(s1, no_cmd)] /\
+     ps (s_psm s1) = Pausing /\
+     (exists s' : sound Q Q,
+        sprocess powf0 amp_lin s1 2 1 info0 = Ok (s', [0; 0]) /\
+        ps (s_psm s') = Paused /\ s_mirror s' = 2%Z)).
+Proof. exact @on_start_before_pickup_refuted_w. Qed.
+
+Theorem publish_per_buffer_refuted :
+  ps (s_psm w_unpublished) = Stopped /\
+  sound_finished Q w_unpublished = true /\
+  s_mirror w_unpublished = 0%Z /\
+  ~ mirror_ok w_unpublished /\
+  (forall (len : nat) (dt : Q) (i : info Q) (s' : sound Q Q) (outs : list Q),
+   sprocess powf0 amp_lin w_unpublished len dt i = Ok (s', outs) -> s_mirror s' = 0%Z) /\
+  mirror_ok (qnew_from (inner_ended 4 false) Immediate None).
+Proof. exact @publish_per_buffer_refuted_w. Qed.
